@@ -18,6 +18,7 @@ the per-point input flag "the ID is flapping here".
 import Kap.Proofs.C01Flap
 import Kap.Proofs.C01Decl
 import Kap.Proofs.C01Window
+import Kap.Proofs.C01Restart
 namespace Kap.Props.C01
 open Kap.C01
 
@@ -335,6 +336,18 @@ theorem restore_fresh (c : Cfg) (hc : c.WF) (flap : FlapFn) (t : Int) (stored du
     restoreEventState c flap t 0 stored dur = newAlertState c ∧ Rel c (newAlertState c) (specRestart none) ∧
     FRel c (newAlertState c) {} :=
   ⟨rfl, rel_init c hc, frel_init c (by have := hc.two; omega)⟩
+
+/-- **Without no-recoveries and flap suppression a restart is invisible** (stream form): after ANY history `ps1`,
+resuming from the last delivered event (`specRestart`) gives for ANY continuation `ps2` exactly the events the
+uninterrupted history gives — levels, emission, times and durations. (With no-recoveries or flap suppression the
+last delivered event need not carry the ID's level; then `specRestart` is what the statement can ask for.) -/
+theorem restart_invisible (c : Cfg) (hn : c.noRec = false) (ps1 ps2 : List Pt) :
+    let h1 := ps1.map (fun p => (p, false))
+    specStream c (specRestart (lastDelivered c {} none h1)) (ps2.map (fun p => (p, false)))
+      = specStream c (trackAfter c {} h1) (ps2.map (fun p => (p, false))) := by
+  intro h1
+  have hd : Describes ({} : Track) none := ⟨fun h => absurd rfl h, fun _ => Or.inl rfl⟩
+  exact specStream_same c ps2 _ _ (describes_restart _ _ (describes_run c hn ps1 {} none hd))
 
 /-- The same claim for the code AS IT WAS before the second `fix:` commit of findings/C01.txt … -/
 def old_restore_keeps_duration_stmt : Prop :=
